@@ -121,7 +121,10 @@ Lemma abi_decode_enum ts bs : abi_decode (AEnum ts) bs =
   obind (read_n 8 bs) (fun lr => dec_variant ts (N.to_nat (be_val (fst lr))) (snd lr)).
 Proof.
   cbn [abi_decode]. destruct (read_n 8 bs) as [lr| | |]; try reflexivity. cbn [obind]. unfold dec_variant.
-  apply pick_dec.
+  destruct (be_val (fst lr) <? nlen ts) eqn:E.
+  - apply pick_dec.
+  - assert (Hn : nth_error ts (N.to_nat (be_val (fst lr))) = None) by (apply nth_error_None; unfold nlen in E; lia).
+    now rewrite Hn.
 Qed.
 
 Lemma dec_fields_enc ts : Forall dec_ok_at ts -> forall vs rest, wtb_fields ts vs = true ->
